@@ -74,14 +74,20 @@ def implOutOfStr (s : String) : Option ImplOut := do
     | _ => none
   pure ⟨resp, fws⟩
 
-def optCount (m : Msg) : Nat := m.additionals.filter (fun r => r.rtype == typeOPT) |>.length
+/-- OPT records anywhere in the message (an OPT record belongs to the additional section; one that sits elsewhere
+    is still "an OPT record in the response") -/
+def optCount (m : Msg) : Nat :=
+  ((m.answers ++ m.authorities ++ m.additionals).filter (fun r => r.rtype == typeOPT)).length
+
+/-- the records of a section that are relayed: everything but OPT (EDNS0 ends at the proxy) -/
+def relayed (rs : List Resource) : List Resource := rs.filter (fun r => r.rtype != typeOPT)
 
 /-- C03 + C10 + C12 as one decidable judgement of the implementation's observable behaviour,
     written from the property texts (independent of `Router.handle`). Returns "ok" or "viol:<why>". -/
 def spec (env : Env) (m : Msg) (o : ImplOut) : String :=
   let r := o.resp
   let supported := !m.hdr.response && m.hdr.rd && m.hdr.opcode == 0 && m.questions.length == 1
-  let queryHasOpt := m.additionals.any (fun r => r.rtype == typeOPT) -- RFC 6891: OPT lives in the additional section
+  let queryHasOpt := (m.answers ++ m.authorities ++ m.additionals).any (fun r => r.rtype == typeOPT) -- "the query contained one"
   -- C03: header
   if r.hdr.id ≠ m.hdr.id then "viol:C03:id"
   else if r.hdr.opcode ≠ m.hdr.opcode then "viol:C03:opcode"
@@ -149,7 +155,7 @@ def spec (env : Env) (m : Msg) (o : ImplOut) : String :=
                         | some (.reply um) =>
                           if isRespOfQuestion um ⟨qname, q0.qtype, q0.qclass⟩ then
                             (if r.hdr.rcode ≠ um.hdr.rcode then "viol:C03:relayed-rcode"
-                             else if r.answers ≠ um.answers ∨ r.authorities ≠ um.authorities then "viol:C03:relayed-records"
+                             else if r.answers ≠ relayed um.answers ∨ r.authorities ≠ relayed um.authorities then "viol:C03:relayed-records"
                              else "ok")
                           else (if r.hdr.rcode ≠ rcodeServFail then "viol:C03:servfail" else "ok")
                         | _ => if r.hdr.rcode ≠ rcodeServFail then "viol:C03:servfail" else "ok"
